@@ -354,19 +354,27 @@ Definition read_markup (z : lx) : res (Z * sl * sl * lx) :=
         Ok (CommentT, fst (fst b), snd (fst b), snd b).
 
 (* ---- shiftXML ------------------------------------------------------------------------------ *)
-(* first loop: state (z, inQuote); result inl z = break, inr z = "c == 0": maybe set l.err, return Shift() *)
-Definition xml_body (raw : Z) (s : lx * bool) : res (lp (lx * bool) (lx + lx)) :=
-  let '(z, q) := s in
+(* first loop: state (z, inTag, quote) with quote = 0 for "none"; result inl z = break, inr z = "c == 0": maybe
+   set l.err, return Shift() *)
+Definition xml_body (raw : Z) (s : lx * bool * Z) : res (lp (lx * bool * Z) (lx + lx)) :=
+  let '(z, intg, q) := s in
   c <-- pkr z 0 ;;
-  if c =? 34 then Ok (Cont (mv z 1, negb q)) else
-  e <-- (if (c =? 60) && negb q then c1 <-- pkr z 1 ;; Ok (c1 =? 47) else Ok false) ;;
-  if e then
-    let mk := mark z in
-    z2 <-- letters_loop (mv z 2) ;;
-    h <-- hash_lexeme_from z2 (mk + 2) ;;
-    if h =? raw then Ok (Brk (inl z2)) else Ok (Cont (z2, q))
+  if negb (q =? 0) && negb (c =? 0) then
+    Ok (Cont (mv z 1, intg, if c =? q then 0 else q))
+  else if intg && negb (c =? 0) then
+    (* quotes are only significant inside a tag *)
+    Ok (Cont (mv z 1, if c =? 62 then false else intg, if (c =? 34) || (c =? 39) then c else q))
+  else if c =? 60 then
+    c1 <-- pkr z 1 ;;
+    if negb (c1 =? 47) then
+      Ok (Cont (mv z 1, negb (c1 =? 33) && negb (c1 =? 63), q))
+    else
+      let mk := mark z in
+      z2 <-- letters_loop (mv z 2) ;;
+      h <-- hash_lexeme_from z2 (mk + 2) ;;
+      if h =? raw then Ok (Brk (inl z2)) else Ok (Cont (z2, intg, q))
   else if c =? 0 then Ok (Brk (inr z))
-  else Ok (Cont (mv z 1, q)).
+  else Ok (Cont (mv z 1, intg, q)).
 
 (* second loop: to '>' (inl, after Move(1)) or NUL (inr) *)
 Definition xml_close_body (z : lx) : res (lp lx (lx + lx)) :=
@@ -377,7 +385,7 @@ Definition xml_close_body (z : lx) : res (lp lx (lx + lx)) :=
 
 (* returns (data view, cursor, l.err after) *)
 Definition shift_xml (raw : Z) (z : lx) (err : bool) : res (sl * lx * bool) :=
-  r <-- loop (fuel_of z) (xml_body raw) (z, false) ;;
+  r <-- loop (fuel_of z) (xml_body raw) (z, true, 0) ;;
   match r with
   | inr z' => s <-- shiftv z' ;; Ok (fst s, snd s, err || negb (at_end z'))
   | inl z' =>
